@@ -104,7 +104,11 @@ class Spec:
         self.away_text = 'gone fishing'
         self.ping_timeout = 120
         self.pong_timeout = 20
+        self.realnames = {}             # nick -> realname (free text, may be multi-byte); default 'Real <nick>'
         self.__dict__.update(kw)
+
+    def realname(self, n):
+        return self.realnames.get(n, 'Real ' + n)
 
     def uname(self, n):
         return ('u' + n) if (self.distinct_unames and n != 'zz') else n
@@ -202,12 +206,12 @@ class World:
             os_ = OneShot('kill_' + n); self.kill[n] = os_
             modes = S('UserModes', **{m: self.umode[(n, m)] for m in UMODES})
             u = S('User', hostname=mkstring(sp.hosts.get(n, '127.0.0.1')), sender=mk_sender(ch), quit_sender=some(mk_oneshot_sender(os_)),
-                  name=mkstring(sp.uname(n)), realname=mkstring('Real ' + n), source=mkstring(self.source(n)), modes=modes,
+                  name=mkstring(sp.uname(n)), realname=mkstring(sp.realname(n)), source=mkstring(self.source(n)), modes=modes,
                   away=opt_sym(self.away[n], mkstring(sp.away_text)),
                   channels=hset([(c, self.member[(n, c)]) for c in sp.chans]),
                   invited_to=hset([(c, self.invited[(n, c)]) for c in sp.chans]),
                   last_activity=self.T('act_' + n), signon=self.T('signon_' + n),
-                  history_entry=S('NickHistoryEntry', username=mkstring(sp.uname(n)), hostname=mkstring(sp.hosts.get(n, '127.0.0.1')), realname=mkstring('Real ' + n), signon=self.T('signon_' + n)))        # (User::new: the record carries the user's own sign-on time)
+                  history_entry=S('NickHistoryEntry', username=mkstring(sp.uname(n)), hostname=mkstring(sp.hosts.get(n, '127.0.0.1')), realname=mkstring(sp.realname(n)), signon=self.T('signon_' + n)))        # (User::new: the record carries the user's own sign-on time)
             cell = Cell(u); self.user_cells[n] = cell
             users.slots.append([n, self.reg[n], cell])
         M.env['wall_min'] = z3.BitVecVal(1000, 64)
